@@ -457,6 +457,7 @@ pub fn render(sc: &Value) -> Rendered {
         "wireLen": wire.len(),
         "cw": cw, "cd": cd,
         "faultKind": spec_fault,
+        "faultIo": match &fault { Fault::Err { kind, .. } => format!("{:?}", kind), _ => "-".to_string() },
         "faultAt": fault_at,
         "status": status,
         "reject": gb(&expect, "reject"),
@@ -749,6 +750,7 @@ pub fn run(sc: &Value) -> Vec<String> {
                                 let mut out = Vec::new();
                                 let mut i = 0usize;
                                 let mut errors = 0usize;
+                                let mut first_err: Option<String> = None;
                                 let extra = gu(sc, "extra");
                                 loop {
                                     let bs = if tr_bufs.is_empty() { 4096 } else { tr_bufs[i % tr_bufs.len()].max(1) };
@@ -760,9 +762,10 @@ pub fn run(sc: &Value) -> Vec<String> {
                                         Err(e) if e.kind() == io::ErrorKind::Interrupted => continue,
                                         Err(e) => {
                                             errors += 1;
+                                            first_err.get_or_insert_with(|| io_err_kind(&e));
                                             if errors > extra {
                                                 partial = Some(out.clone());
-                                                return Err(io_err_kind(&e));
+                                                return Err(first_err.unwrap());
                                             }
                                         }
                                     }
@@ -771,8 +774,9 @@ pub fn run(sc: &Value) -> Vec<String> {
                                     }
                                 }
                                 if errors > 0 {
+                                    // (the kind reported is that of the first failed read)
                                     partial = Some(out.clone());
-                                    return Err("Io:after-error".into());
+                                    return Err(first_err.unwrap_or_else(|| "Io:after-error".into()));
                                 }
                                 Ok(out)
                             }
